@@ -78,7 +78,7 @@ def run(ctx, replay):
     # ---- G + T
     replays = _idxfam.generate(ctx, sizes, quick)
     ctx.sample({"replay": replays[len(replays) // 2]})
-    o5, o6 = _idxfam.run_driver(ctx, replays, which="05")
+    o5, o6 = _idxfam.run_driver(ctx, replays, which="05", shards=6)
     evs = validate(ctx, o5)
     n = sum(1 for e in evs if e["ev"] == "reset")
     for e in evs:
